@@ -31,6 +31,18 @@ OPS = [
     ('ORD', r'Ordering::Less', 'Ordering::Greater'), ('ORD', r'Ordering::Greater', 'Ordering::Less'), ('ORD', r'\bLess\b', 'Greater'), ('ORD', r'\bGreater\b', 'Less'),
     ('ORD', r'\.reverse\(\)', ''), ('OPT', r'\.is_some\(\)', '.is_none()'), ('OPT', r'\.is_none\(\)', '.is_some()'), ('OPT', r'\.is_empty\(\)', '.len() == 1'),
 ]
+# second-generation operators (session 3): sibling-field replacement, operand deletion in conditions, argument swaps
+FIELD_PAIRS = [('value_top', 'value_bot'), ('value_bot', 'value_top'), ('best_lb', 'best_ub'), ('best_ub', 'best_lb'), (r'\.ub\b', '.value'), (r'\.value\b', '.ub'),
+               ('is_exact\(\)', 'is_relaxed()'), ('is_cutset\(\)', 'is_above_cutset()'), ('is_above_cutset\(\)', 'is_cutset()'), ('is_marked\(\)', 'is_exact()'),
+               ('set_cutset', 'set_above_cutset'), ('set_deleted', 'set_marked'), ('edge\.from', 'edge.to'), ('edge\.to', 'edge.from'), ('open_by_layer', 'ongoing_by_layer'),
+               ('ongoing_by_layer', 'open_by_layer'), ('\.rub\b', '.value_bot'), ('max_width - 1', 'max_width'), ('max_width\)', 'max_width - 1)'), ('curr_l', 'prev_l'),
+               ('node\.depth', 'node.depth + 1'), ('residual\.depth', 'residual.depth + 1'), ('\.first\(\)', '.last()'), ('\.last\(\)', '.first()'),
+               ('notify_all', 'notify_one'), ('Restricted', 'Relaxed'), ('Relaxed', 'Restricted'), ('LAST_EXACT_LAYER', 'FRONTIER'), ('FRONTIER', 'LAST_EXACT_LAYER'),
+               ('BubbleUp', 'BubbleDown'), ('BubbleDown', 'BubbleUp'), ('left_child', 'right_child'), ('thread_id', '0'), ('\[depth\]', '[depth + 1]'), ('nn\.depth', 'nn.depth + 1')]
+OPS2 = [('FLD', a, b) for (a, b) in FIELD_PAIRS]
+COND_DEL = [('CDL', r'if (.+?) && (.+?) \{', 1), ('CDL', r'if (.+?) && (.+?) \{', 2), ('CDL', r'if (.+?) \|\| (.+?) \{', 1), ('CDL', r'if (.+?) \|\| (.+?) \{', 2),
+            ('CDL', r'while (.+?) && (.+?) \{', 1), ('CDL', r'while (.+?) && (.+?) \{', 2)]
+ARG_SWAP = re.compile(r'(\b[a-z_][A-Za-z_0-9:]*\()([a-z_][a-z_0-9\.]*(?:\(\))?), ([a-z_][a-z_0-9\.]*(?:\(\))?)\)')
 SDL = re.compile(r'^\s*(self\.|node\.|critical\.|shared\.|get!\(|curr_l\.|\*|[a-z_]+\.(push|clear|truncate|insert|remove|set_[a-z_]+|notify_all|notify_one)\()[^;{}]*;\s*(//.*)?$')
 
 
@@ -73,6 +85,37 @@ def gen():
         ms.extend(cands[:quota])
         rest.extend(cands[quota:])
     os.makedirs(OUT, exist_ok=True)
+    if '--gen2' in sys.argv:
+        # second generation: appended to the existing list, ids continue
+        old_ = load('mutants.jsonl')
+        seen = {(m['file'], m['before'], m['after']) for m in old_}
+        n0 = len(old_)
+        k = 0
+        with open(os.path.join(OUT, 'mutants.jsonl'), 'a') as o:
+            for f in FILES:
+                for (i, l) in code_lines(os.path.join('/repo', f)):
+                    code = l.split('//')[0]
+                    outs = []
+                    for (kind, pat, rep) in OPS2:
+                        for m in list(re.finditer(pat, code))[:2]:
+                            outs.append((kind, code[:m.start()] + rep + code[m.end():] + l[len(code):]))
+                    for (kind, pat, which) in COND_DEL:
+                        m = re.search(pat, code)
+                        if m:
+                            kw = pat.split(' ')[0]
+                            outs.append((kind, code[:m.start()] + '%s %s {' % (kw, m.group(which)) + code[m.end():] + l[len(code):]))
+                    for m in list(ARG_SWAP.finditer(code))[:2]:
+                        if m.group(2) != m.group(3):
+                            outs.append(('ARG', code[:m.start()] + m.group(1) + m.group(3) + ', ' + m.group(2) + ')' + code[m.end():] + l[len(code):]))
+                    for (kind, new) in outs:
+                        key = (f, l.strip(), new.strip())
+                        if key in seen or new.strip() == l.strip():
+                            continue
+                        seen.add(key)
+                        o.write(json.dumps({'id': 'm%04d' % (n0 + k), 'file': f, 'line': i + 1, 'op': kind, 'before': l.strip(), 'after': new.strip(), 'new_line': new}) + '\n')
+                        k += 1
+        print(k, 'second-generation mutants')
+        return
     if '--more' in sys.argv:
         # second batch: every remaining candidate (first batch untouched, ids continue)
         old_ = load('mutants.jsonl')
